@@ -327,7 +327,7 @@ def run_case(case):  # noqa: C901
         if reflect.snapshot(g) != snap:
             viol.append({"sig": {"kind": "argument-mutated", "function": case["function"]}, "msg": where})
         if kind in ("identity", "identity-if-dupfree") and not has_dup and not (
-                case["graph"] == "shared-buffers" and "data_wrappers" in case["function"]):
+                case["graph"].startswith("shared-buffers") and "data_wrappers" in case["function"]):
             if r is not g:
                 same = isinstance(r, pt.DictOfNamedArrays) and all(r._data[k] is g._data[k] for k in g)
                 if not same:
@@ -445,7 +445,7 @@ def run_case(case):  # noqa: C901
                             f"(kinds {kinds}); edges from visited nodes: {sorted(via)}"})
     # (3) transformations
     if kind == "transform" and isinstance(res, pt.DictOfNamedArrays):
-        if rec["identity"] and not (case["graph"] == "shared-buffers" and "DataWrapperDeduplicator" in case["mapper"]):
+        if rec["identity"] and not (case["graph"].startswith("shared-buffers") and "DataWrapperDeduplicator" in case["mapper"]):
             if not (res is g or all(res._data[k] is g._data[k] for k in g)):
                 viol.append({"sig": {"kind": "identity-transformation-rebuilds", "mapper": case["mapper"]},
                              "msg": f"{where}: nothing to change, but the result is not the argument itself"})
